@@ -1,2 +1,45 @@
-(** C12 — placeholder so that the check runs before the theorems land. *)
-From JSL Require Import Base.
+(** C12 — reset makes everything indistinguishable from new.
+    Statements for the dispatcher and the observers of model/Observers.v
+    (history, unscheduled operations, makespan / idle-time rewards); the
+    feature observers and the residual graph updater are added by
+    properties/C12b.v when their models (FeatureObservers.v, Residual.v) carry
+    the repaired initialisation. Proofs in proofs/ResetFresh.v. *)
+From JSL Require Import Base Instance Dstate Filters World Observers Feasible DispatchFun Run Replay Notify ResetFresh.
+
+(** resetting an observer on the just-reset dispatcher gives the state its
+    constructor gives on a new dispatcher *)
+Theorem C12_observer_reset_is_fresh :
+  forall (I : instance) (fs : list fname) (o : obs), plain_kind (kind_of o) = true ->
+    o_reset I fs (init_d I) o = o_construct I (init_d I) (kind_of o).
+Proof. exact observer_reset_is_fresh. Qed.
+Print Assumptions C12_observer_reset_is_fresh.
+
+(** [Dispatcher.reset] in ANY world (any history before, any cache content,
+    any creation order of the observers - the subscriber list only has to be
+    duplicate-free, which constructor-driven subscription guarantees, C10):
+    dispatcher fields of a new dispatcher, empty cache, same filter and
+    subscribers, every subscribed observer in its freshly-constructed state. *)
+Theorem C12_reset_world_is_fresh :
+  forall (I : instance) (w : wld), NoDup (subs w) ->
+    let w' := fst (reset o_reset I w) in
+    core w' = init_d I /\ wcache w' = empty_cache /\ filt w' = filt w /\ subs w' = subs w /\
+    forall i o, In i (subs w) -> nth_error (objs w) i = Some o -> plain_kind (kind_of o) = true ->
+                nth_error (objs w') i = Some (fresh_obj I o).
+Proof. exact reset_world_is_fresh. Qed.
+Print Assumptions C12_reset_world_is_fresh.
+
+(** every episode after a reset evolves the dispatcher exactly like a new one *)
+Theorem C12_episodes_after_reset_coincide :
+  forall (I : instance) (w : wld) (rs : list request),
+    core (run_from obs o_update I (fst (reset o_reset I w)) rs) = fold_left (apply_req I) rs (init_d I).
+Proof. exact episodes_after_reset_coincide. Qed.
+Print Assumptions C12_episodes_after_reset_coincide.
+
+Definition ex_I : instance := [[mkop [0%nat] 3; mkop [1%nat] 2]; [mkop [1%nat] 4]].
+Definition ex_w : wld :=
+  run_from obs o_update ex_I (mkw (init_d ex_I) empty_cache [] [OMakespan [] 0; OUnsched (all_deques ex_I); OHist []; OIdle []] [2%nat; 0%nat; 1%nat; 3%nat])
+           [mkreq 0 0 None; mkreq 1 0 None].
+Example C12_nonvacuous :
+  objs ex_w = [OMakespan [-3; -1] 4; OUnsched [[(0, 1)%nat]; []]; OHist [mksop 0 0 0 0; mksop 1 0 0 1]; OIdle [0; 0]] /\
+  objs (fst (reset o_reset ex_I ex_w)) = [OMakespan [] 0; OUnsched (all_deques ex_I); OHist []; OIdle []].
+Proof. vm_compute. split; reflexivity. Qed.
